@@ -574,14 +574,23 @@ def generate_policy(args=None):
 
 
 def _upgrade_policies(policies, default_policies):
-    old_policies_keys = list(policies.keys())
+    old_policies = dict(policies)
     for section in sorted(default_policies.keys()):
         rule_defaults = default_policies[section]
         for rule_default in rule_defaults:
             if (rule_default.deprecated_rule and
-                    rule_default.deprecated_rule.name in old_policies_keys):
-                policies[rule_default.name] = policies.pop(
-                    rule_default.deprecated_rule.name)
+                    rule_default.deprecated_rule.name in old_policies):
+                old_name = rule_default.deprecated_rule.name
+                if old_name == rule_default.name:
+                    continue
+                # One deprecated policy may have been split into several new
+                # ones; each of them takes over the operator's override.
+                policies.pop(old_name, None)
+                if old_policies[old_name] == 'rule:%s' % rule_default.name:
+                    # Merely the alias from the sample file; it never
+                    # overrode anything and must not refer to itself.
+                    continue
+                policies[rule_default.name] = old_policies[old_name]
                 LOG.info('The name of policy %(old_name)s has been upgraded to'
                          '%(new_name)',
                          {'old_name': rule_default.deprecated_rule.name,
